@@ -22,10 +22,10 @@ structure Setting (c : PCfg) : Prop where
 theorem mem_of_contains {l : List Nat} {i : Nat} (h : (!l.contains i) = false) : i ∈ l := by
   simpa using h
 
-theorem arr_inv {c : PCfg} {s : PSt} (st : Setting c) (it : Item) (h : PInv c s) :
+theorem arr_inv {c : PCfg} {s : PSt} {ss : SSt} (hr : PolRel c.pol s.q ss) (it : Item) (h : PInv c s) :
     PInv c (stepArr c s it).1 := by
   obtain ⟨⟨rt, wf, res, act, le, rej, count⟩, strand⟩ := h
-  have hl := plain_push_len st.hp s.q it false false
+  have hl := rel_push_len hr it false false
   unfold stepArr
   simp only
   by_cases hok : (push c.pol s.q it false false).2 = true
@@ -54,9 +54,10 @@ theorem notify_inv {c : PCfg} {s : PSt} (st : Setting c) (h : PInv c s) : PInv c
   · exact h
   · exact pollIfReady_inv st.hv ⟨h.rt, h.wf, h.res, h.act, h.le, h.rej, h.count⟩
 
-theorem poll_inv {c : PCfg} {s : PSt} (st : Setting c) (h : PInv c s) : PInv c (stepPoll c s).1 := by
+theorem poll_inv {c : PCfg} {s : PSt} {ss : SSt} (st : Setting c) (hr : PolRel c.pol s.q ss) (h : PInv c s) :
+    PInv c (stepPoll c s).1 := by
   obtain ⟨⟨rt, wf, res, act, le, rej, count⟩, strand⟩ := h
-  have hl := plain_pop_len st.hp s.q 0 0
+  have hl := rel_pop_len hr
   by_cases hp : s.nPoll = 0
   · simp only [stepPoll, hp, if_true]
     exact ⟨⟨rt, wf, res, act, le, rej, count⟩, strand⟩
@@ -183,12 +184,12 @@ theorem fin_inv {c : PCfg} {s : PSt} (st : Setting c) (i : Nat) (h : PInv c s) :
     refine ⟨rt, wf, fun _ => by simp; omega, by simp [hlen]; omega, by simp; omega, rej, ?_⟩
     simp only [PSt.depth] at count ⊢; simp [hlen]; omega
 
-theorem step_inv {c : PCfg} {s : PSt} (st : Setting c) (a : Act) (ha : Adm s a) (h : PInv c s) :
-    PInv c (step c s a).1 := by
+theorem step_inv {c : PCfg} {s : PSt} {ss : SSt} (st : Setting c) (hr : PolRel c.pol s.q ss) (a : Act)
+    (ha : Adm s a) (h : PInv c s) : PInv c (step c s a).1 := by
   cases a with
-  | arr it => exact arr_inv st it h
+  | arr it => exact arr_inv hr it h
   | notify => exact notify_inv st h
-  | poll => exact poll_inv st h
+  | poll => exact poll_inv st hr h
   | deliver x => exact deliver_inv st x h
   | work i => exact work_inv st i h
   | disp => exact disp_inv st (ha.1 rfl) h
@@ -208,10 +209,54 @@ instance instDecSched (c : PCfg) : ∀ (as : List Act) (s : PSt), Decidable (Sch
     | isFalse h1, _ => isFalse fun h => h1 h.1
     | _, isFalse h2 => isFalse fun h => h2 h.2
 
-theorem final_inv {c : PCfg} (st : Setting c) : ∀ (as : List Act) (s : PSt), Sched c s as → PInv c s →
-    PInv c (final c s as)
+/-! ### the list specification's state as a ghost next to the queue policy's -/
+
+/-- the specification state follows every push and every pop the pipeline issues -/
+def sstep (c : PCfg) (s : PSt) (ss : SSt) : Act → SSt
+  | .arr it => (sPush c.pol ss it false false).1
+  | .poll => if s.nPoll = 0 then ss else (sPop c.pol ss 0 0).1
+  | _ => ss
+
+def sfinal (c : PCfg) : PSt → SSt → List Act → SSt
+  | _, ss, [] => ss
+  | s, ss, a :: as => sfinal c (step c s a).1 (sstep c s ss a) as
+
+theorem pollIfReady_q (c : PCfg) (s : PSt) : (pollIfReady c s).1.q = s.q := by
+  unfold pollIfReady
+  cases c.variant <;> simp only <;> (repeat' split) <;> rfl
+
+theorem step_rel {c : PCfg} {s : PSt} {ss : SSt} (hr : PolRel c.pol s.q ss) (a : Act) :
+    PolRel c.pol (step c s a).1.q (sstep c s ss a) := by
+  cases a with
+  | arr it =>
+    have := (polrel_push hr it false false).2
+    simp only [step, stepArr, sstep]; split <;> exact this
+  | poll =>
+    have := (polrel_pop hr 0 0).2
+    simp only [step, stepPoll, sstep]
+    split
+    · exact hr
+    · (repeat' split) <;> exact this
+  | notify => simp only [step, stepNotify, sstep]; split <;> simp [pollIfReady_q, hr]
+  | deliver x =>
+    cases x with
+    | some i => simp only [step, stepDeliver, sstep]; (repeat' split) <;> exact hr
+    | none => simp only [step, stepDeliver, sstep]; (repeat' split) <;> simp [pollIfReady_q, hr]
+  | work i => simp only [step, stepWork, sstep]; (repeat' split) <;> simp [pollIfReady_q, hr]
+  | disp => simp only [step, stepDisp, sstep]; split <;> simp [pollIfReady_q, hr]
+  | fin i => simp only [step, stepFin, sstep]; split <;> simp [pollIfReady_q, hr]
+  | shift cap => simp only [step, stepShift, sstep]; (repeat' split) <;> exact hr
+
+/-- the refinement relation holds along every schedule (no hypothesis on variant, worker, schedule) -/
+theorem final_rel (c : PCfg) : ∀ (as : List Act) (s : PSt) (ss : SSt), PolRel c.pol s.q ss →
+    PolRel c.pol (final c s as).q (sfinal c s ss as)
   | [], _, _, h => h
-  | a :: as, s, hs, h => final_inv st as _ hs.2 (step_inv st a hs.1 h)
+  | a :: as, _, _, h => final_rel c as _ _ (step_rel h a)
+
+theorem final_inv {c : PCfg} (st : Setting c) : ∀ (as : List Act) (s : PSt) (ss : SSt), Sched c s as →
+    PInv c s → PolRel c.pol s.q ss → PInv c (final c s as) ∧ PolRel c.pol (final c s as).q (sfinal c s ss as)
+  | [], _, _, _, h, hr => ⟨h, hr⟩
+  | a :: as, _, _, hs, h, hr => final_inv st as _ _ hs.2 (step_inv st hr a hs.1 h) (step_rel hr a)
 
 theorem pollIfReady_limit (c : PCfg) (s : PSt) : (pollIfReady c s).1.limit = s.limit := by
   unfold pollIfReady
